@@ -57,9 +57,8 @@ Definition frame_sample (uo : bool) (s : Q) (frames : list lframe) (k : nat)
   end.
 
 (* SingleInstanceDataset (finding C18 F181): fixedS = false  the class pads to get_max_instances(labels) like
-   the other frame-level classes (current /repo HEAD afd312c: single_sample false = frame_sample);
-   fixedS = true  `self.max_instances = 1` in SingleInstanceDataset.__init__ (fix 30d1c17 in the coordinator's
-   worktree): process_lf adds no NaN padding row.  The harness detects the variant by reading
+   the other frame-level classes (tree before fix 30d1c17, e.g. afd312c: single_sample false = frame_sample);
+   fixedS = true  `self.max_instances = 1` in SingleInstanceDataset.__init__ (CURRENT tree, fix 30d1c17): process_lf adds no NaN padding row.  The harness detects the variant by reading
    `ds.max_instances` of a SingleInstanceDataset built over a two-instance frame. *)
 Definition frame_sample_m (maxi : nat) (uo : bool) (s : Q) (frames : list lframe) (k : nat)
   : option (list instance * nat) :=
@@ -93,7 +92,7 @@ Definition count_user_nonempty (frames : list lframe) : nat :=
   list_sum (map (fun fr => length (filter user_nonempty fr)) frames).
 
 (* ---- what the CALLER'S Labels object holds after a dataset was built over it (finding F110) ----
-   fixedL = false  pinned tree and current tree (/repo HEAD, F110 not repaired): `lf.instances =
+   fixedL = false  pinned tree (and every tree before fix 8c4b3a1; historic): `lf.instances =
                    lf.user_instances` is a store into the caller's LabeledFrame; `_get_lf_idx_list` /
                    `_get_instance_idx_list` run over every frame in `__init__`, `process_lf` again on
                    every frame it is given: the labels hold `rebind uo fr` for every frame afterwards
